@@ -803,14 +803,6 @@ theorem locNe_of_dictEq_false (p l : NLoc) (hp : LocOk p) (hl : LocOk l) (h : di
   rw [this] at h
   exact Bool.noConfusion h
 
-/-- what `VariationModel(locations)` is given by varLib: dicts with coordinates in [-1, 1] (zeros allowed), pairwise different
-    (also after dropping the zeros), one of them the origin -/
-def wfInput (locations : List NLoc) : Prop :=
-  (∀ l ∈ locations, (keysOf l).Nodup ∧ ∀ e ∈ l, -1 ≤ e.2 ∧ e.2 ≤ 1) ∧ allDistinct locations = true ∧
-    allDistinct (locations.map dropZeros) = true ∧ (locations.map dropZeros).contains [] = true
-
-instance (locations : List NLoc) : Decidable (wfInput locations) := by unfold wfInput; infer_instance
-
 /-- the masters in model order satisfy `wfN` -/
 theorem wfN_sortN (ao : List String) (locations : List NLoc) (hwf : wfInput locations) : wfN (sortN ao (locations.map dropZeros)) := by
   obtain ⟨hloc, _, hd, _⟩ := hwf
@@ -858,5 +850,248 @@ theorem variationModel_law (ao : List String) (locations : List NLoc) (hwf : wfI
     exact List.pairwise_iff_getElem.mp ((allDistinct_iff _).mp hd) j i (by omega) hi hji
   rw [hfi]
   simp [List.getD_eq_getElem?_getD, show i < values.length by omega]
+
+
+/-! ## 6. one axis: the definitions of Model/C10Var §"one axis" are the special case -/
+
+/-- a one-axis location as a dict (zeros dropped) -/
+def loc1 (a : String) (x : Q) : NLoc := if x == 0 then [] else [(a, x)]
+/-- a one-axis support as a dict -/
+def reg1 (a : String) : Option Triple → Region
+  | none => []
+  | some t => [(a, t)]
+
+theorem coord_loc1 (a : String) (x : Q) : coord (loc1 a x) a = x := by
+  unfold loc1
+  by_cases h : x = 0
+  · simp [h, coord, alookup]
+  · simp [h, coord, alookup]
+
+/-- `supportScalar` on one axis is `scalar1` -/
+theorem supportScalar_one (a : String) (r : Option Triple) (x : Q) : supportScalar (loc1 a x) (reg1 a r) = scalar1 r x := by
+  cases r with
+  | none => rfl
+  | some t =>
+    obtain ⟨lo, pk, hi⟩ := t
+    simp only [reg1, supportScalar, supportScalarGo, coord_loc1, scalar1, Rat.one_mul]
+    repeat' split
+    all_goals rfl
+
+theorem narrow_one (a : String) (l : Q) (box : Q × Q) (p : Q) :
+    narrow [(a, box.1, l, box.2)] (loc1 a p) = [(a, (splitBox l box p).1, l, (splitBox l box p).2)] := by
+  by_cases h0 : p = 0
+  · subst h0
+    rw [sb_zero]
+    simp [narrow, loc1, sameKeys, keysOf]
+  · have hl1 : loc1 a p = [(a, p)] := by simp [loc1, h0]
+    have hsame : sameKeys (keysOf [(a, p)]) (keysOf [(a, box.1, l, box.2)]) = true := by simp [sameKeys, keysOf]
+    have hrel : relevant [(a, box.1, l, box.2)] [(a, p)] = (p == l || (decide (box.1 < p) && decide (p < box.2))) := by
+      simp [relevant, coord, alookup]
+    rw [hl1]
+    unfold narrow
+    simp only [hsame, hrel, Bool.not_true, Bool.false_eq_true, if_false]
+    by_cases hpl : p = l
+    · subst hpl
+      have hb : bestAxes [(a, box.1, p, box.2)] [(a, p)] = [] := by
+        simp [bestAxes, bestStep, alookup, Rat.lt_irrefl]
+      have hs : splitBox p box p = box := by
+        unfold splitBox
+        simp [h0, Rat.lt_irrefl]
+      simp [hb, hs, applyBest, alookup]
+    · by_cases hin : box.1 < p ∧ p < box.2
+      · have hc : (p == l || (decide (box.1 < p) && decide (p < box.2))) = true := by simp [hin.1, hin.2]
+        simp only [hc, Bool.not_true, Bool.false_eq_true, if_false]
+        by_cases hlt : p < l
+        · rw [sb_lo l p box h0 hin.1 hin.2 hlt]
+          have hr : -1 < (p - l) / (box.1 - l) := ratio_gt_of_neg _ _ (by grind) (by grind)
+          have hb : bestAxes [(a, box.1, l, box.2)] [(a, p)] = [(a, (p, l, box.2))] := by
+            simp only [bestAxes, List.foldl_cons, List.foldl_nil, bestStep, alookup, beq_self_eq_true, if_true, hlt]
+            rw [bestUpd_gt _ _ _ _ hr]
+          simp [hb, applyBest, alookup]
+        · have hgt : l < p := by grind
+          rw [sb_hi l p box h0 hin.1 hin.2 hgt]
+          have hr : -1 < (p - l) / (box.2 - l) := ratio_gt_of_pos _ _ (by grind) (by grind)
+          have hb : bestAxes [(a, box.1, l, box.2)] [(a, p)] = [(a, (box.1, l, p))] := by
+            simp only [bestAxes, List.foldl_cons, List.foldl_nil, bestStep, alookup, beq_self_eq_true, if_true, hlt, if_false, hgt]
+            rw [bestUpd_gt _ _ _ _ hr]
+          simp [hb, applyBest, alookup]
+      · rw [sb_irrel l p box hpl hin]
+        have hc : (p == l || (decide (box.1 < p) && decide (p < box.2))) = false := by
+          simp only [Bool.or_eq_false_iff, beq_eq_false_iff_ne, ne_eq, hpl, not_false_eq_true, true_and, Bool.and_eq_false_iff,
+            decide_eq_false_iff_not]
+          by_cases h1 : box.1 < p
+          · right; exact fun h2 => hin ⟨h1, h2⟩
+          · left; exact h1
+        simp [hc]
+
+theorem narrowFold_one (a : String) (l : Q) (prev : List Q) (box : Q × Q) :
+    (prev.map (loc1 a)).foldl narrow [(a, box.1, l, box.2)] =
+      [(a, (prev.foldl (splitBox l) box).1, l, (prev.foldl (splitBox l) box).2)] := by
+  induction prev generalizing box with
+  | nil => rfl
+  | cons p prev ih =>
+    simp only [List.map_cons, List.foldl_cons]
+    rw [narrow_one, ih]
+
+theorem narrowFold_nil (prev : List NLoc) : prev.foldl narrow [] = [] := by
+  induction prev with
+  | nil => rfl
+  | cons p prev ih =>
+    simp only [List.foldl_cons]
+    have : narrow [] p = [] := by
+      unfold narrow applyBest
+      split
+      · rfl
+      · split <;> rfl
+    rw [this, ih]
+
+/-- `_computeMasterSupports` on one axis is `region1` -/
+theorem regionOf_one (a : String) (prev : List Q) (l : Q) :
+    regionOf (prev.map (loc1 a)) (loc1 a l) = reg1 a (region1 prev l) := by
+  unfold regionOf region1
+  by_cases h0 : l = 0
+  · simp [h0, loc1, initRegion, narrowFold_nil, reg1]
+  · have hl1 : loc1 a l = [(a, l)] := by simp [loc1, h0]
+    simp only [hl1, beq_iff_eq, h0, if_false, reg1]
+    by_cases hpos : l > 0
+    · have : initRegion [(a, l)] = [(a, ((0 : Q), (1 : Q)).1, l, ((0 : Q), (1 : Q)).2)] := by simp [initRegion, hpos]
+      rw [this, narrowFold_one]
+      simp [hpos]
+    · have : initRegion [(a, l)] = [(a, ((-1 : Q), (0 : Q)).1, l, ((-1 : Q), (0 : Q)).2)] := by simp [initRegion, hpos]
+      rw [this, narrowFold_one]
+      simp [hpos]
+
+theorem supportsNGo_one (a : String) (prev ls : List Q) :
+    supportsNGo (prev.map (loc1 a)) (ls.map (loc1 a)) = (supports1Go prev ls).map (reg1 a) := by
+  induction ls generalizing prev with
+  | nil => rfl
+  | cons l ls ih =>
+    simp only [List.map_cons, supportsNGo, supports1Go, regionOf_one]
+    have := ih (prev ++ [l])
+    simp only [List.map_append, List.map_cons, List.map_nil] at this
+    rw [this]
+
+theorem supportsN_one (a : String) (ls : List Q) : supportsN (ls.map (loc1 a)) = (supports1 ls).map (reg1 a) := by
+  have := supportsNGo_one a [] ls
+  simpa [supportsN, supports1] using this
+
+section transport
+variable {L L' T : Type} (φ : L → L') (f : T → L → Q) (g : T → L' → Q) (hfg : ∀ r x, g r (φ x) = f r x)
+include hfg
+
+theorem dot_transport (P : List T) (x : L) (D : List Q) : dot (P.map g) (φ x) D = dot (P.map f) x D := by
+  induction P generalizing D with
+  | nil => cases D <;> simp [dot]
+  | cons r P ih =>
+    cases D with
+    | nil => simp [dot]
+    | cons d D => simp only [List.map_cons, dot, hfg, ih]
+
+theorem deltasGo_transport (P U : List T) (pD : List Q) (locs : List L) (vs : List Q) :
+    deltasGo (P.map g) pD ((U.map g).zip ((locs.map φ).zip vs)) = deltasGo (P.map f) pD ((U.map f).zip (locs.zip vs)) := by
+  induction U generalizing P pD locs vs with
+  | nil => simp [deltasGo]
+  | cons r U ih =>
+    cases locs with
+    | nil => simp [deltasGo]
+    | cons l locs =>
+      cases vs with
+      | nil => simp [deltasGo]
+      | cons v vs =>
+        simp only [List.map_cons, List.zip_cons_cons, deltasGo]
+        rw [dot_transport φ f g hfg]
+        have := ih (P ++ [r]) (pD ++ [v - dot (P.map f) l pD]) locs vs
+        simpa using this
+
+theorem interpolate_transport (U : List T) (locs : List L) (x : L) (vs : List Q) :
+    interpolate (U.map g) (locs.map φ) (φ x) vs = interpolate (U.map f) locs x vs := by
+  unfold interpolate deltas
+  have := deltasGo_transport φ f g hfg [] U [] locs vs
+  simp only [List.map_nil] at this
+  rw [this, dot_transport φ f g hfg]
+
+end transport
+
+/-- the n-axis model restricted to one axis IS the one-axis model (supports, deltas, interpolation) -/
+theorem interpolateN_one (a : String) (ls : List Q) (x : Q) (vs : List Q) :
+    interpolateN (ls.map (loc1 a)) (loc1 a x) vs = interpolate1 ls x vs := by
+  unfold interpolateN interpolate1 scalarsN
+  rw [supportsN_one, List.map_map]
+  exact interpolate_transport (loc1 a) (fun r => scalar1 r) (fun r y => supportScalar y (reg1 a r))
+    (fun r x => supportScalar_one a r x) (supports1 ls) ls x vs
+
+
+/-! ## 7. the property on the model's output, rejected inputs, `supportScalar` as a product -/
+
+/-- C10 for the modelled `VariationModel`: what is read back at the masters' locations IS the master values (tolerance 0) -/
+theorem C10_varmodel (ao : List String) (locations : List NLoc) (values : List Q) (hwf : wfInput locations)
+    (hv : values.length = locations.length) :
+    ∃ m, variationModel ao locations = .ok m ∧
+      holdsReproduce values (locations.map (fun x => m.interpolateFromMasters x values)) 0 = true := by
+  obtain ⟨m, hm, _, _, hlaw⟩ := variationModel_law ao locations hwf
+  refine ⟨m, hm, ?_⟩
+  unfold holdsReproduce
+  simp only [List.length_map, hv, beq_self_eq_true, Bool.true_and, List.all_eq_true, decide_eq_true_eq]
+  intro p hp
+  obtain ⟨i, hi, rfl⟩ := List.getElem_of_mem hp
+  simp only [List.length_zip, List.length_map] at hi
+  have hi' : i < locations.length := by omega
+  simp only [List.getElem_zip, List.getElem_map]
+  rw [hlaw values i hi' hv]
+  simp [absQ, Rat.sub_self]
+
+/-- rejected inputs: `Locations must be unique.` -/
+theorem variationModel_unique (ao : List String) (locations : List NLoc) (h : allDistinct locations = false) :
+    variationModel ao locations = .error "unique" := by
+  simp [variationModel, h]
+
+/-- rejected inputs: `Base master not found.` -/
+theorem variationModel_nobase (ao : List String) (locations : List NLoc) (h : allDistinct locations = true)
+    (hb : (locations.map dropZeros).contains [] = false) : variationModel ao locations = .error "nobase" := by
+  unfold variationModel
+  simp only [h, hb, Bool.not_true, Bool.false_eq_true, if_false, Bool.not_false, if_true]
+
+/-- product of the per-axis tents -/
+def prodFactors (loc : NLoc) : Region → Q
+  | [] => 1
+  | e :: rest => axisFactor loc e * prodFactors loc rest
+
+/-- `supportScalar` (a loop with a running product and a `break`) is the product of the per-axis tents `scalar1` -/
+theorem supportScalarGo_prod (loc : NLoc) (R : Region) (s : Q) : supportScalarGo loc s R = s * prodFactors loc R := by
+  induction R generalizing s with
+  | nil => simp [supportScalarGo, prodFactors, Rat.mul_one]
+  | cons e R ih =>
+    obtain ⟨a, lo, pk, hi⟩ := e
+    simp only [supportScalarGo, prodFactors, axisFactor, scalar1]
+    repeat' split
+    all_goals (first | (rw [ih]; grind) | grind)
+
+theorem supportScalar_prod (loc : NLoc) (R : Region) : supportScalar loc R = prodFactors loc R := by
+  unfold supportScalar
+  rw [supportScalarGo_prod, Rat.one_mul]
+
+/-! ## 8. non-vacuity: two axes, on-axis masters (one intermediate), a corner and two intermediate masters inside the quadrant -/
+
+def exMasters : List NLoc :=
+  [[], [("wght", 1/2)], [("wght", 1)], [("wdth", -1)], [("wdth", 1)],
+   [("wght", 1), ("wdth", 1)], [("wdth", 1/2), ("wght", 1/2)], [("wght", 1/2), ("wdth", 3/4)]]
+
+example : wfN exMasters := by decide +kernel
+/-- the box of the last master was narrowed by the earlier master (1/2, 1/2): lower bound of `wdth` moved from 0 to 1/2 -/
+example : regionOf (exMasters.take 7) [("wght", 1/2), ("wdth", 3/4)] = [("wght", 0, 1/2, 1), ("wdth", 1/2, 3/4, 1)] := by
+  decide +kernel
+example : interpolateN exMasters [("wght", 1/2), ("wdth", 1/2)] [10, 40, 20, 0, 7, 100, -30, 55] = -30 := by decide +kernel
+example : interpolateN exMasters [("wght", 1/2), ("wdth", 3/4)] [10, 40, 20, 0, 7, 100, -30, 55] = 55 := by decide +kernel
+/-- between the masters the model really interpolates (not a master's value) -/
+example : interpolateN exMasters [("wght", 3/4), ("wdth", 3/4)] [10, 40, 20, 0, 7, 100, -30, 55] = 135/2 := by decide +kernel
+
+/-- the user's order and dict style: shuffled, explicit zeros -/
+def exInput : List NLoc :=
+  [[("wght", 1), ("wdth", 1)], [("wdth", 3/4), ("wght", 1/2)], [("wght", 0), ("wdth", 0)], [("wght", 1), ("wdth", 0)],
+   [("wght", 0), ("wdth", 1)], [("wght", 1/2), ("wdth", 1/2)], [("wdth", -1)], [("wght", 1/2)]]
+example : wfInput exInput := by decide +kernel
+/-- three axes: the law's hypotheses hold for a cube corner, a face intermediate and a body intermediate -/
+example : wfN [[], [("a", 1)], [("b", 1)], [("c", -1)], [("a", 1), ("b", 1/2)], [("a", 1), ("b", 1)],
+    [("a", 1/2), ("b", 1/2), ("c", -1/2)], [("a", 1), ("b", 1), ("c", -1)]] := by decide +kernel
 
 end Ufo2ft.C10
